@@ -238,7 +238,7 @@ func (p *Prog) extContract(r *extRecord) (*Contract, error) {
 		return nil
 	}
 	if strings.HasPrefix(argsN, "_") || argsN == "" {
-		return c, nil // arguments unused
+		return c, p.extEnvClauses(r, envN, add) // arguments unused
 	}
 	cnt := fmt.Sprintf("len(%s) >= %d", argsN, r.Min)
 	if r.Max >= 0 {
@@ -260,6 +260,12 @@ func (p *Prog) extContract(r *extRecord) (*Contract, error) {
 			return nil, err
 		}
 	}
+	return c, p.extEnvClauses(r, envN, add)
+}
+
+// extEnvClauses: the environment handed to the callback is the record's client data or the interpreter state.
+func (p *Prog) extEnvClauses(r *extRecord, envN string, add func(label, text string) error) error {
+	f := r.Callback
 	if r.ClientData && r.CDType != nil && envN != "" && !strings.HasPrefix(envN, "_") {
 		tn := types.TypeString(r.CDType, func(pk *types.Package) string { return pk.Name() })
 		if pk := f.Pkg.Pkg; strings.HasPrefix(tn, pk.Name()+".") {
@@ -270,15 +276,15 @@ func (p *Prog) extContract(r *extRecord) (*Contract, error) {
 			cl += fmt.Sprintf(" && %s.(%s) != nil", envN, tn)
 		}
 		if err := add("clientdata", cl); err != nil {
-			return nil, err
+			return err
 		}
 	}
 	if !r.ClientData && envN != "" && !strings.HasPrefix(envN, "_") {
 		if err := add("env", fmt.Sprintf("isType(%s, *eval.State) && %s.(*eval.State) != nil", envN, envN)); err != nil {
-			return nil, err
+			return err
 		}
 	}
-	return c, nil
+	return nil
 }
 
 // cmdExts: debug - verify every extension callback under its synthesised contract and print a summary.
